@@ -115,6 +115,13 @@ func (g *G) GenRule(p *Profile, id, ver int) *RuleDef {
 		s := Sec{Kind: k}
 		if k == SecConc {
 			s.Arg = g.Intn(1 << NumChild) // 0 = empty block
+			if g.Pct(12) {
+				// a long block: up to two dozen further statements of all four forms
+				if s.Arg == 0 {
+					s.Arg = 1 << ChMethod
+				}
+				s.Arg |= g.PickInt([]int{1, 2, 3, 5, 8, 9, 12, 16, 17, 23}) << 16
+			}
 		}
 		r.Secs = append(r.Secs, s)
 	}
@@ -144,6 +151,9 @@ func (g *G) GenRuleSet(p *Profile) []*RuleDef {
 				sec := &rs[i].Secs[j]
 				if sec.Kind == SecConc {
 					sec.Arg &^= 1 << ChAsgField
+					if sec.Arg&0xffff == 0 {
+						sec.Arg = 0
+					}
 				}
 				if sec.Kind == SecSetKind && i+1 > 8 {
 					sec.Kind = SecY
@@ -261,7 +271,7 @@ func (g *G) GenCall(p *Profile, rules []*RuleDef, idx int) *Call {
 			var cands []int
 			for i, s := range r.Secs {
 				if FaultCapable(s.Kind) && (p.FaultKinds == nil || p.FaultKinds[s.Kind]) {
-					if s.Kind == SecConc && s.Arg == 0 {
+					if s.Kind == SecConc && s.Arg&0xffff == 0 {
 						continue
 					}
 					cands = append(cands, i)
@@ -288,7 +298,7 @@ func (g *G) GenCall(p *Profile, rules []*RuleDef, idx int) *Call {
 			ny := len(yks)
 			conc := -1
 			for i, s := range r.Secs {
-				if s.Kind == SecConc && s.Arg != 0 {
+				if s.Kind == SecConc && s.Arg&0xffff != 0 {
 					conc = i
 				}
 			}
